@@ -228,6 +228,11 @@ class Run:
                 raise FD.Unknown("argument array %r of rtosc_amessage" % (ap,), n)
             self.amessages.append({"buf": v[0], "size": v[1], "address": v[2], "types": v[3], "args": av})
             return 16
+        if name in ("min", "max") and len(args) == 2:
+            a, b = ev.ev(args[0]), ev.ev(args[1])
+            if isinstance(a, int) and isinstance(b, int) and not isinstance(a, bool):
+                return min(a, b) if name == "min" else max(a, b)
+            raise FD.Unknown("%s of %r and %r" % (name, a, b), n)
         if name == "difftime":
             return self._age(ev.ev(args[0]), ev.ev(args[1]), n)
         if name in ("strcmp", "strncmp"):
